@@ -125,10 +125,9 @@ func (w *world) damage(dir string, comp bool, class string) bool {
 
 func classGet(c *desync.Chunk, err error, want []byte) string {
 	if err != nil {
-		var mi desync.ChunkMissing
 		var in desync.ChunkInvalid
 		switch {
-		case errors.As(err, &mi):
+		case isMissing(err):
 			return "missing"
 		case errors.As(err, &in):
 			return "invalid"
@@ -171,6 +170,13 @@ func wrappers(leaf desync.Store, cacheDir string) map[string]desync.Store {
 		"dedup":       desync.NewDedupQueue(leaf),
 		"swap":        desync.NewSwapStore(leaf),
 	}
+}
+
+// isMissing: "missing" is recognised the way desync's own consumers do it (router, cache, failover group, HTTP handler,
+// protocol server): by the error's dynamic type, not through a chain of wrapped errors
+func isMissing(err error) bool {
+	_, ok := err.(desync.ChunkMissing)
+	return ok
 }
 
 func main() {
